@@ -175,6 +175,19 @@ CLAIMED = {
         note="Coq kernel; stdlib real axioms; shapely/GEOS and matplotlib Path are oracles with the pointwise contract measured.",
         technique="Coq proofs of the polygon algebra + exact-rational crossing-number correspondence for set operations",
         design="7/C18"),
+    "C20": dict(
+        text="Coq theorems: the Biot-Savart kernel equals mu0/4pi sum_k a_k (K_k x r)/|r|^3 (SI form) for arbitrary sources and "
+             "points, is linear in the sheet currents in all three components, scalar mode is the z component of vector mode, the "
+             "total is the sum of the supercurrent and normal-current parts, the Coulomb-kernel potential is the direct double sum "
+             "and homogeneous, H<->B conversions round-trip, distance kernels meet their definitions. Correspondence: "
+             "biot_savart_2d (both modes) and distance.cdist vs Model.Kernels (PrimFloat) for random currents, off-plane points, "
+             "three length and current units. Oracle: direct SI summation, superposition on the implementation, "
+             "Solution.field_at_position / vector_potential_at_position totals and parts on real solutions, conversions chained "
+             "on their own output. NOT DECIDED BY PROOF: the closed-form loop potential (elliptic integrals) is only compared with "
+             "quadrature numerically.",
+        note="Coq kernel; stdlib real axioms; fastmath kernels to 1e-9; pint factors as numbers; elliptic integrals unavailable.",
+        technique="Coq proofs over R (sums, linearity) + vm_compute/PrimFloat correspondence + SI direct-sum oracle",
+        design="7/C20"),
 }
 
 PENDING_REASON = "check not built yet in this session (planned, see DESIGN.md section 7); not claimed until it runs"
